@@ -58,14 +58,24 @@ class C08(Prop):
             shift = rng.choice([2, 3])
             cover = [[v + (shift if v >= base + n // 2 else 0) for v in c] for c in cover]
         mask = [rng.random() < 0.5 for _ in cover] if rng.random() < 0.3 else None     # cliques given as tuples
-        return {"cover": cover, "contiguous": not malformed, "tuple_mask": mask}
+        c = {"cover": cover, "contiguous": not malformed, "tuple_mask": mask}
+        if i % 4 == 1:
+            c["rebuild"] = True
+        return c
 
     def impl(self, case):
         from gcmpy.joint_degree.joint_degree_loaders.joint_degree_cover import JointDegreeCover
         from gcmpy.names.joint_degree_names import JointDegreeNames as JN
         mask = case.get("tuple_mask") or [False] * len(case["cover"])
         cover = [tuple(c) if t else list(c) for c, t in zip(case["cover"], mask)]
-        obj = JointDegreeCover({JN.COVER: cover})
+        if case.get("rebuild"):
+            # the loader first held another cover (the same vertices and clique sizes, one clique listed three times) and is then given this one
+            # through its public `cover` attribute and asked to rebuild
+            obj = JointDegreeCover({JN.COVER: [list(c) for c in case["cover"]] + [list(case["cover"][0])] * 2})
+            obj.cover = cover
+            obj.create_jdd()
+        else:
+            obj = JointDegreeCover({JN.COVER: cover})
         n = len({v for c in case["cover"] for v in c})
         return {"motif_sizes": list(obj.motif_sizes),
                 "table": [[list(k), rs(recover(v, n)), type(k).__name__] for k, v in obj.jdd.items()],
